@@ -90,10 +90,10 @@ def run(ctx):
                 for o in out:
                     used |= {a for a in alg.atoms_of(lift(o), deep=False) if a.kind == "fn:eigvalsh"}
                 got_tri = {a.args[0] for a in used}
-                if used:
-                    ctx.ob("C13.scatter", f"symmetry_pgr:{letter}", same_tris(got_tri, tri), f"eigen-solver argument differs from sum_g a a^T of row {row}", loc)
-                else:
-                    ctx.observe(f"symmetry_pgr({letter}) does not call a library eigen-solver; its values are decided by C13.pgr against the eigenvalues of sum_g a a^T alone")
+                # (which matrix the function hands to which solver is its own business - a scatter matrix normalised by the number of grains
+                # has the same P, G, R: the values are decided by C13.pgr against the eigenvalues of sum_g a a^T, evaluated exactly)
+                if not (used and same_tris(got_tri, tri)):
+                    ctx.observe(f"symmetry_pgr({letter}) does not hand sum_g a a^T itself to a library eigen-solver; its values are decided by C13.pgr against the eigenvalues of sum_g a a^T alone")
                 for nm, o, r in zip("PGR", out, ref):
                     ident(ctx, "C13.pgr", f"{letter}:{nm}", o, r, loc)
                 ident(ctx, "C13.pgr", f"{letter}:P+G+R", lift(out[0]) + lift(out[1]) + lift(out[2]), ONE, loc)
@@ -111,10 +111,8 @@ def run(ctx):
                 for o in out.flat:
                     used |= {a for a in alg.atoms_of(lift(o), deep=True) if a.kind == "fn:eigh.vec"}
                 got_tri = {a.args[0] for a in used}
-                if used:
-                    ctx.ob("C13.scatter", f"bingham_average:{letter}", same_tris(got_tri, tri), f"eigen-solver argument differs from sum_g a a^T of row {row}", loc)
-                else:
-                    ctx.observe(f"bingham_average({letter}) does not call a library symmetric eigen-solver; its axis is decided by the eigen-equation alone")
+                if not (used and same_tris(got_tri, tri)):
+                    ctx.observe(f"bingham_average({letter}) does not hand sum_g a a^T itself to a library symmetric eigen-solver; its axis is decided by the eigen-equation alone")
                 eigen_axis(ctx, "C13.bingham", letter, S, ev[2], out, loc)
         for bad in ("d", "x", "A"):
             f = public(ctx, I, D + fname)
@@ -123,7 +121,6 @@ def run(ctx):
                 ctx.ob("C13.axis-table", f"{fname}:{bad}", False, "invalid axis letter accepted", loc)
             except RaiseSig as r:
                 ctx.ob("C13.axis-table", f"{fname}:{bad}", r.exc.typename == "ValueError", f"raised {r.exc.typename}", loc)
-    ctx.floor("C13.scatter", 6)
     ctx.floor("C13.pgr", 15)
     # objectivity of the scatter matrix (through the public symmetry_pgr: compare eigen-solver arguments)
     loc = defloc(ctx, D + "symmetry_pgr")
